@@ -829,6 +829,10 @@ class Gen:
             ("integer(kind = 4), dimension(3) :: ivA = (/ 1, 2, 3 /)", "decl_init"),
             ("real, save :: svR = 1.0e-3", "decl_init"),
             ("character(len = *), parameter :: cPar = %s" % self.char_lit(), "decl_char"),
+            # a kind selector with a literal / parenthesised text in it; a parenthesised character length with initialisation
+            ("character(kind = kind('a')) :: cKnd", "decl_char"),
+            ("character(len = len('a b'), kind = kind(\"q\")) :: cKnl", "decl_char"),
+            ("character :: sIni*(2 + 1) = 'abc', sInj*4 = %s" % self.char_lit(), "decl_char"),
             ("parameter (nPar = 5)", "parameter_stmt"),
             ("parameter (rPar = (1.0e-3 + 2.0) * 4.0, sPar = 'a b, c')", "parameter_stmt"),
             ("dimension eArr(5)", "dimension_stmt"),
